@@ -308,6 +308,30 @@ func main() {
 		}
 		model := map[id][]byte{}
 		lastVAA := map[id]*vaa.VAA{}
+		// the public RPC server lives as long as the store: it answers while VAAs are being stored and overwritten
+		pub := publicrpc.NewPublicrpcServer(logger, d, nil, proc.GovChain, proc.GovEmitter)
+		midLookup := func() {
+			if len(model) == 0 {
+				return
+			}
+			var pick id
+			k := rng.Intn(len(model))
+			for i := range model {
+				if k == 0 {
+					pick = i
+					break
+				}
+				k--
+			}
+			resp, err := pub.GetSignedVAA(ctx, &publicrpcv1.GetSignedVAARequest{MessageId: &publicrpcv1.MessageID{EmitterChain: publicrpcv1.ChainID(pick.EC), EmitterAddress: hex.EncodeToString(pick.Em[:]), TargetChain: publicrpcv1.ChainID(pick.TC), Sequence: pick.Seq}})
+			r.Count("lookups_between_stores", 1)
+			if err != nil || !bytes.Equal(resp.VaaBytes, model[pick]) {
+				r.Violation("rpc:answer-differs-from-what-is-stored-now", map[string]interface{}{"id": pick.String(), "err": fmt.Sprint(err), "store": sn, "when": "between two stores"})
+			}
+			if got, err := d.GetSignedVAABytes(pick.vid()); err != nil || !bytes.Equal(got, model[pick]) {
+				r.Violation("db:answer-differs-from-what-is-stored-now", map[string]interface{}{"id": pick.String(), "err": fmt.Sprint(err), "store": sn, "when": "between two stores"})
+			}
+		}
 		// focus the universe of this store so that streams collide in interesting ways
 		ecs := []uint16{chains[rng.Intn(len(chains))], chains[rng.Intn(len(chains))], 1}
 		tcs := []uint16{chains[rng.Intn(len(chains))], chains[rng.Intn(len(chains))], chains[rng.Intn(len(chains))]}
@@ -354,6 +378,9 @@ func main() {
 			}
 			model[i] = b
 			r.Count("stores", 1)
+			if rng.Intn(3) == 0 {
+				midLookup()
+			}
 			if len(ops) < 12 {
 				ops = append(ops, i.String())
 			}
@@ -361,7 +388,6 @@ func main() {
 		if sn < 2 {
 			r.Sample(map[string]interface{}{"store": sn, "first_ids_stored": ops, "distinct_ids": len(model)})
 		}
-		pub := publicrpc.NewPublicrpcServer(logger, d, nil, proc.GovChain, proc.GovEmitter)
 		adm := guardiand.VerifNewPrivilegedService(d, nil, nil, nil, logger, proc.GovChain, proc.GovEmitter)
 
 		// ---- lookups: every stored id, near misses of it, random absent ids
